@@ -101,6 +101,18 @@ impl X509Certificate {
 		})
 	}
 
+	/// Parses a PEM certificate chain and returns its first certificate. Every certificate of the
+	/// chain has to be well-formed.
+	pub fn from_pem_chain(pem_data: &[u8]) -> Result<Self, Error> {
+		let mut chain = X509::stack_from_pem(pem_data)?;
+		if chain.is_empty() {
+			return Err("no certificate found".into());
+		}
+		Ok(X509Certificate {
+			inner_cert: chain.remove(0),
+		})
+	}
+
 	pub fn from_pem_native(pem_data: &[u8]) -> Result<native_tls::Certificate, Error> {
 		Ok(native_tls::Certificate::from_pem(pem_data)?)
 	}
